@@ -7,6 +7,22 @@ ALL = ["C%02d" % i for i in range(1, 21)]
 
 # id -> (engine, level, text, note, technique, design_ref)
 CHECKS = {
+ "C04": ("alloc+allocconc", "exploration",
+   "4000 (quick) / 64000 (thorough) sequential Allocate/Free histories of 20-200 operations on generated IPv4 and IPv6 pools, every result decided online by a set-of-outstanding-blocks model, ending in a drain audit; plus 400 / 6400 concurrent histories (2-16 goroutines, 1-16 blocks, built -race) checked for linearizability with porcupine. Held on those executions.",
+   "math/big address arithmetic is the reference; concurrency coverage is what the Go scheduler produced (overlap counts in the evidence); porcupine timeouts are inconclusive.",
+   "online reference-model monitor + porcupine linearizability check of recorded histories + Go race detector", "4 C04-C07"),
+ "C05": ("alloc", "exploration",
+   "Same sequential histories; oracle: every returned block is an aligned block of the pool with the right mask length, refusal iff full (ErrNoAddrAvail only), and the end-of-history drain returns exactly the complement of the outstanding set (in = out + held). Includes a 3-call probe of the full IPv4 range.",
+   "pools above 2^16 blocks are not drained; the full-range probe accepts a constructor that refuses the pool.",
+   "online reference-model monitor with conservation audit at quiescent points", "4 C04-C07"),
+ "C06": ("alloc", "exploration",
+   "Same histories with Free naming every class of prefix (outstanding, sub-prefix, never allocated, already freed, 1..N+2 blocks below the base - aimed at indices of outstanding blocks - and above the end, far away, other family on IPv4); success iff inside an outstanding block; a failing Free must leave the drain audit exact.",
+   "super-prefix Free and IPv4 prefixes given to the IPv6 allocator are outside the statement and not generated.",
+   "online reference-model monitor over generated Free classes", "4 C04-C07"),
+ "C07": ("alloc", "exploration",
+   "Same histories; every Allocate whose hint lies in a block the model knows to be free (first/last/word-boundary blocks, 4- and 16-byte IPv4 forms, any address inside an IPv6 block, hint lengths >= and <= the allocation length) must return exactly that block.",
+   "hints carrying a mask that is not 128 bits are only checked for C05.",
+   "online reference-model monitor over generated hints", "4 C04-C07"),
  "C20": ("arith", "exploration",
    "2x10^6 (quick) / 3.8x10^7 (thorough) generated evaluations of Offset (both argument orders), AddPrefixes and the inverse law, each decided by a math/big reference; all p in 0..128, carry/borrow and overflow classes counted in the evidence. Sampling of a 2^320 input space: 'held on what was explored'.",
    "math/big is the definition of the exact result; inputs are 16-byte addresses.",
